@@ -24,7 +24,7 @@ var Check = &mc.Check{
 	ID:    "C13",
 	Level: "model_checking",
 	Rule: "reader: BFS over sequences of {Peek(n), Skip(n), ReadByte, ReadBinary(n), Read(n), Release, Len} with n in {1,2,4095,4096,4097,8192,(524289)} to depth 5 (thorough 7) for each (fragmentation script, initial buffer size), states deduplicated on (link-buffer dump, bytes consumed from the wire, outstanding peeked slices); " +
-		"writer: all sequences up to depth 4 (5) over {Malloc(n), WriteBinary(n), Flush, ReadFrom(n)} with n in {0,1,4095,4096,8192} x write-error position; non-trivial = transitions that change the buffer layout",
+		"writer: all sequences up to depth 4 (5) over {Malloc(n), WriteBinary(n), Flush, ReadFrom(n)} with n in {0,1,4095,4096,8192} plus Malloc(8193) and ReadFrom(20000) x write-error position; non-trivial = transitions that change the buffer layout",
 	Run:    run,
 	Replay: replay,
 	Assumptions: []string{
@@ -472,6 +472,10 @@ func runWriter(c *mc.Ctx, ops []Op, failAt int, report bool) {
 			}
 			n, err := rf.ReadFrom(&errAfterReader{b: append([]byte(nil), d...)})
 			if err != nil {
+				if failAt == 0 {
+					fail("readfrom-error", fmt.Sprintf("operation %d: ReadFrom of %d bytes from a reader that does not fail, over a connection that does not fail, returned (%d, %v)", i, o.N, n, err))
+					return
+				}
 				failed = true // the underlying write failed: only "the peer holds a prefix" is promised afterwards
 				want = append(want, d...)
 				break
@@ -509,6 +513,8 @@ func writerSeqs(depth int) [][]Op {
 	for _, n := range ns {
 		al = append(al, Op{"malloc", n}, Op{"wbin", n}, Op{"readfrom", n})
 	}
+	// a reservation just above the recyclable node size, and a copy longer than the node that reservation leaves behind
+	al = append(al, Op{"malloc", 8193}, Op{"readfrom", 20000})
 	al = append(al, Op{K: "flush"})
 	var out [][]Op
 	var rec func(p []Op)
